@@ -331,8 +331,103 @@ func run(c *hx.Ctx) error {
 		}
 	}
 	res.Histogram["templates-built"] = built
+	if err := straightLine(c); err != nil {
+		return err
+	}
 	if built < nTemplates/2 {
 		return fmt.Errorf("only %d of %d generated templates build — generator is broken", built, nTemplates)
+	}
+	return nil
+}
+
+
+// straightLine ties the chunk sequence the Lean model predicts for a straight-line template
+// body (Model/TemplateChunks.lean: literal texts and shows of strings in five contexts, with the
+// escapers' own chunking) to the Write sequence of the real engine ("template-chunks").
+func straightLine(c *hx.Ctx) error {
+	res := c.Res
+	type seg struct {
+		pre, post string // literal text before and after the hole (sets the context)
+		tag       byte   // item tag of the hole
+	}
+	segs := []seg{
+		{"<p>", "</p>", 'h'},
+		{`<a title="`, `">x</a>`, 'q'},
+		{`<a title='`, `'>x</a>`, 'q'},
+		{`<input value=`, `>`, 'u'},
+		{`<script>var a = "`, `";</script>`, 'j'},
+		{`<script>var b = '`, `';</script>`, 'j'},
+		{`<style>a::before { content: "`, `" }</style>`, 'c'},
+	}
+	decl := native.Declarations{}
+	for i := 0; i < 6; i++ {
+		decl[fmt.Sprintf("v%d", i)] = (*string)(nil)
+	}
+	n := c.N(400, 6000)
+	for t := 0; t < n; t++ {
+		var src strings.Builder
+		var items []string
+		vars := map[string]any{}
+		lit := "" // literal text accumulated since the last hole: one Text instruction
+		flush := func() {
+			if lit != "" {
+				items = append(items, "t"+proto.Hex([]byte(lit)))
+				lit = ""
+			}
+		}
+		k := 1 + c.R.Intn(6)
+		for i := 0; i < k; i++ {
+			sg := segs[c.R.Intn(len(segs))]
+			val := randString(c.R, 10)
+			if sg.tag == 'u' && val == "" {
+				val = "x" // an empty unquoted value changes the tag structure; not this stream's topic
+			}
+			name := fmt.Sprintf("v%d", i)
+			vars[name] = val
+			filler := ""
+			if c.R.Intn(2) == 0 {
+				filler = "text" + strings.Repeat("é", c.R.Intn(3)) + "\n"
+			}
+			src.WriteString(filler + sg.pre + "{{ " + name + " }}" + sg.post)
+			lit += filler + sg.pre
+			flush()
+			items = append(items, string(sg.tag)+proto.Hex([]byte(val)))
+			lit += sg.post
+		}
+		flush()
+		files := scriggo.Files{"index.html": []byte(src.String())}
+		tpl, err := scriggo.BuildTemplate(files, "index.html", &scriggo.BuildOptions{Globals: decl})
+		if err != nil {
+			res.Hist("straight-line:build-error")
+			continue
+		}
+		rec := &recWriter{}
+		if err, p := runWith(tpl, rec, vars); err != nil || p != nil {
+			res.Hist("straight-line:run-error")
+			continue
+		}
+		var impl []string
+		for _, ch := range rec.chunks {
+			impl = append(impl, proto.Hex(ch))
+		}
+		implLine := strings.TrimRight("ok "+strings.Join(impl, " "), " ")
+		res.Count("straight:"+src.String()+fmt.Sprint(vars), true)
+		res.Hist("straight-line:templates")
+		if c.D == nil {
+			continue
+		}
+		line := "C13 tchunks " + strings.Join(items, " ")
+		model, err := c.D.Ask(line)
+		if err != nil {
+			return err
+		}
+		if model != implLine {
+			res.AddBreak(proto.Break{Kind: "correspondence", Name: "template-chunks (Model/TemplateChunks vs the engine's Write sequence)", Case: line,
+				Human: src.String() + fmt.Sprintf("  vars=%q", vars), Impl: implLine, Model: model})
+		}
+		if t == 0 {
+			res.Sample(map[string]any{"straight-line": src.String(), "vars": vars, "writes": implLine})
+		}
 	}
 	return nil
 }
